@@ -541,11 +541,25 @@ def check_strict_graphs(ctx, U):
             if exp is None:
                 continue
             rt.reset_program()
+            # how the mapping node is mounted: as it is, with the mapped input renamed after / before map_over, or with
+            # the mapped input and a broadcast one swapped in one call - the list type follows the mapped parameter
+            style = ("plain", "rename-after", "rename-before", "swap")[ctx.obs["strict_mapped_checked"] % 4]
+            feed = {"plain": "val", "rename-after": "items", "rename-before": "items", "swap": "other"}[style]
             prod = rt.make_function("prod", "t/prod", [{"n": "seed", "ann": int}], ret_ann=(la if shape == "list-of-a" else a))
-            cons = rt.make_function("cons", "t/cons", [{"n": "val", "ann": b}], ret_ann=int)
+            cons = rt.make_function("cons", "t/cons", [{"n": "val", "ann": b}, {"n": "other", "ann": bytes, "d": b"x"}], ret_ann=int)
             try:
                 inner = Graph([FunctionNode(cons, name="cons", output_name="out")], name="inner_m", strict_types=True)
-                Graph([FunctionNode(prod, name="prod", output_name="val"), inner.as_node().map_over("val")], strict_types=True)
+                gn = inner.as_node()
+                if style == "plain":
+                    gn = gn.map_over("val")
+                elif style == "rename-after":
+                    gn = gn.map_over("val").with_inputs(val="items")
+                elif style == "rename-before":
+                    gn = gn.with_inputs(val="items").map_over("items")
+                else:
+                    gn = gn.map_over("val").with_inputs(val="other", other="val")
+                ctx.obs["strict_mapped_style:" + style] += 1
+                Graph([FunctionNode(prod, name="prod", output_name=feed), gn], strict_types=True)
                 got = True
             except GraphConfigError:
                 got = False
@@ -555,7 +569,7 @@ def check_strict_graphs(ctx, U):
             ctx.obs["strict_graphs_checked"] += 1
             ctx.obs["strict_mapped_checked"] += 1
             if got != exp:
-                ctx.violation("C19:strict-graph:" + ("accepted" if got else "rejected") + ":mapped-input", f"strict_types graph: producer type {(la if shape == 'list-of-a' else a)!r} feeding a nested-graph node mapped over a parameter of type {b!r} was {'accepted' if got else 'rejected'}; the documented relation on list[...] says {'compatible' if exp else 'incompatible'}", {"incoming": repr(a), "required": repr(b), "nested": "mapped-" + shape})
+                ctx.violation("C19:strict-graph:" + ("accepted" if got else "rejected") + ":mapped-input", f"strict_types graph: producer type {(la if shape == 'list-of-a' else a)!r} feeding a nested-graph node mapped over a parameter of type {b!r} was {'accepted' if got else 'rejected'}; the documented relation on list[...] says {'compatible' if exp else 'incompatible'}", {"incoming": repr(a), "required": repr(b), "nested": "mapped-" + shape, "mount": style})
     # missing annotations
     for missing in ("producer", "consumer"):
         rt.reset_program()
@@ -619,6 +633,58 @@ def nested_consumer_types(ctx):
     ctx.case({"strict": "nested-consumers"}, True)
 
 
+def explicit_edges_by_object(ctx):
+    """Explicit edges whose endpoints are written as node OBJECTS. An object that is a member of the graph is fine; an
+    object that is not (a node forgotten from the list) is an unknown node; the stale pre-rename object of a member
+    stands for that member, so an edge naming a value the member no longer produces / consumes is an unknown value.
+    Flat and inside a nested graph."""
+    from hypergraph import FunctionNode, Graph
+    from hypergraph.graph.validation import GraphConfigError
+
+    def mk(name, params, out):
+        fid = f"eo/{name}"
+        fn = rt.make_function(name, fid, [{"n": p} for p in params])
+        rt.KIND[fid] = "fn"
+        return FunctionNode(fn, name=name, output_name=out)
+
+    rt.reset_program()
+    a, b, c, ghost = mk("a", ["x"], "y"), mk("b", ["y"], "z"), mk("c", ["z"], "w"), mk("ghost", ["q"], "y")
+    a2 = a.with_outputs(y="y2")
+    b2 = b.with_inputs(y="y2")
+    b3 = b.with_inputs(y="yin")
+    cases = [
+        # (label, nodes, edges, must_accept)
+        ("member objects", [a, b, c], [(a, b), (b, c)], True),
+        ("member objects, 3-tuples", [a, b, c], [(a, b, "y"), (b, c, "z")], True),
+        ("renamed members, current value", [a2, b2, c], [(a2, b2, "y2"), (b2, c)], True),
+        ("source object not in the graph", [a, b, c], [(ghost, b), (b, c)], False),
+        ("target object not in the graph", [a, b], [(a, b), (b, c)], False),
+        ("source object not in the graph, 3-tuple", [a, b, c], [(ghost, b, "y"), (b, c)], False),
+        ("stale source object names the value before with_outputs", [a2, b2, c], [(a, b2, "y"), (b2, c)], False),
+        ("stale target object names the value before with_inputs", [a, b3, c], [(a, b, "y"), (b3, c)], False),
+    ]
+    for nested in (False, True):
+        for label, nodes, edges, ok in cases:
+            ctx.obs["flaws_injected" if not ok else "valid_built"] += 1
+            ctx.obs["edge_object_cases"] += 1
+            case = {"program": "explicit edges by node object", "label": label, "nested": nested}
+            try:
+                g = Graph(list(nodes), edges=list(edges), name="eo")
+                if nested:
+                    Graph([g.as_node(), mk("tail", ["w"], "t")], name="outer")
+                err = None
+            except GraphConfigError as e:
+                err = e
+            except Exception as e:  # noqa: BLE001
+                ctx.violation("C19:raw-exception:" + type(e).__name__, f"explicit edges by object ({label}): the constructor raised {e!r} instead of a configuration error", case)
+                continue
+            if ok and err is not None:
+                ctx.violation("C19:valid-rejected", f"explicit edges by object ({label}): a valid graph was rejected: {str(err)[:200]}", case)
+            elif not ok and err is None:
+                ctx.violation("C19:accepted:edge-endpoint-object", f"explicit edges by object ({label}): the constructor accepted the graph", case)
+    ctx.case({"directed": "explicit-edges-by-object"}, True)
+
+
 def run(ctx):
     n = 28 if ctx.tier == "quick" else 600
     core.WARM_P = 0.0
@@ -635,6 +701,7 @@ def run(ctx):
         U = check_types(ctx)
         check_strict_graphs(ctx, U)
         nested_consumer_types(ctx)
+        explicit_edges_by_object(ctx)
         for label, spec, ok in independent_gates_cases():
             st, e = try_build(spec)
             ctx.obs["flaws_injected" if not ok else "must_accept_checked"] += 1
